@@ -1,6 +1,6 @@
 #!/bin/bash
 # run every claimed check on /repo (clean tree) with the given seed/tier; prints one line per check
-cd /verif
+cd "$(dirname "$0")/.."
 seed=${1:-0}; tier=${2:-quick}
 for p in $(/venv/bin/python -c "import json; print(' '.join(c['property_id'] for c in json.load(open('MANIFEST.json'))['checks']))"); do
   out=$(VERIF_SEED=$seed ./check $p --tier $tier 2>&1); rc=$?
